@@ -122,13 +122,15 @@ impl Pool {
     }
 
     /// Submits a job through `SharedTaskRunner::spawn` without waiting; the job reports over a channel
-    /// of its own exactly as `run_with_result` does (a panic drops the sender).
+    /// of its own exactly as `run_with_result` does (a panic drops the sender); an `Err` job also returns
+    /// its error to the worker loop.
     pub fn submit(&self, kind: JobKind) -> Ticket {
         let (tx, rx) = mpsc::channel();
         let r = self.runner.spawn(move |_ctx| {
             let res = body(kind);
             let _ = tx.send(if res.is_ok() { Answer::Ok } else { Answer::Err });
-            Ok(())
+            // a failing job also hands its error to the worker loop (the `Err` path of `Job::Task`)
+            res.map_err(|_| Box::new(JobFailed) as Box<dyn std::error::Error>)
         });
         Ticket { rx, early: if r.is_err() { Some(Answer::Rejected) } else { None } }
     }
